@@ -244,7 +244,7 @@ def check_child(rep, case, what, child, parents, before, D, ops, size, want_age,
 def run(ctx, rep):
     rep.rule = ("(K) c04_diff: D in {0,1,2,5}, every non-empty operator subset of size <= 3 plus the full set and arity-1-only sets, random weights incl. "
                 "zeros, terminal/constant probabilities incl. 0 and 1, sizes 1..40, parents reached by 0..30 variations, each mutation kind forced "
-                "and mixed, crossover; (oracle) non-degenerate configurations on real objects; distinct = distinct (configuration, parent, draws)")
+                "and mixed, crossover; (oracle) non-degenerate configurations on real objects with parents in every state (evaluated, cache valid, flag cleared by reset_fitness, printed only); distinct = distinct (configuration, parent, draws)")
     rep.assumptions = ["the random draws are oracle inputs (logged at the API bingo calls); the theorems quantify over all draw lists"]
     out = tempfile.mktemp(suffix=".json")
     env = dict(os.environ)
